@@ -2,6 +2,8 @@
 from __future__ import annotations
 
 import ast
+import os
+import sys
 from typing import Any
 
 import z3
@@ -158,6 +160,10 @@ class CallMixin(ExprMixin):
             self.trusted_used.add(f"{key} -> {stub.key()} (override)")
             return self.inline_call(st, ctx, stub, args, kwargs, line, None)
         c = self.R.contracts.get(key)
+        cv = (self.cur_contract.env.get("callee_variant", {}) if getattr(self, "cur_contract", None) is not None else {}).get(fi.qualname)
+        if cv is not None and not (ctx.top and ctx.func is fi):
+            # the caller's contract names the variant of the callee's contract that describes this use of it
+            c = self.R.contracts[f"{key}@{cv}"]
         if c is not None and "inline_unless_abstract" in c.env and args:
             # a contract stated for an abstract receiver does not speak for a concrete class that has its own
             # (precondition-carrying) contract: interpret the body so that the concrete callee's contract is applied
@@ -530,6 +536,18 @@ class CallMixin(ExprMixin):
                     st.set(base, attr, self.make_symbolic(st, t, attr.strip("_")))
                 return
         st.set(base, attr, self.havoc_like(st, cur, attr, path))
+        self.havoc_generator_state(st, st.heap[base.oid].get(attr), attr)
+
+    def havoc_generator_state(self, st: State, v: Any, label: str) -> None:
+        """A modified field that holds a (suspended) generator object: the callee may have resumed it or replaced it by a new
+        one, so its ghost stream and position are unknown afterwards (the callee's postcondition says what they are)."""
+        if isinstance(v, Opt):
+            v = v.val
+        if isinstance(v, Ref) and v.oid in st.heap and META[v.oid].kind == "generator":
+            d = st.heap[v.oid]
+            nm = label.strip("_")
+            st.set(v, "T", smt.fresh(nm + "_T", d["T"].sort() if is_z3(d["T"]) else smt.Bytes))
+            st.set(v, "pos", smt.fresh(nm + "_pos", smt.I))
 
     def declared_field_type(self, base: Ref, plain: str, mangled_name: str):
         cls = META[base.oid].cls
@@ -760,6 +778,37 @@ class CallMixin(ExprMixin):
                 if self.feasible(s2):
                     s2.trace.append(f"raised:{cname}:by:{fi.qualname}")
                     results.append((s2, Raise(exc)))
+                elif os.environ.get("PYVC_DEBUG_INFEASIBLE") and self.recording and self.feasible(st):
+                    sol = z3.Solver()
+                    sol.set("unsat_core", True)
+                    flat_pc = []
+                    def _split(a, tag):
+                        if z3.is_and(a):
+                            for j, ch in enumerate(a.children()):
+                                _split(ch, f"{tag}.{j}")
+                        elif z3.is_or(a) and os.environ.get("PYVC_DEBUG_DISJUNCT") and tag.startswith(os.environ["PYVC_DEBUG_DISJUNCT"].split(":")[0]):
+                            _split(a.children()[int(os.environ["PYVC_DEBUG_DISJUNCT"].split(":")[1])], tag + ".or")
+                        else:
+                            flat_pc.append((tag, a))
+                    for i, a in enumerate(s2.pc):
+                        _split(a, f"a{i}")
+                    for tag, a in flat_pc:
+                        sol.assert_and_track(a, tag)
+                    if sol.check() == z3.unsat:
+                        core = [str(x) for x in sol.unsat_core()]
+                        print(f"[infeasible] {ctx.func.key()}:{line}: outcome {cname} of {fi.qualname}; split core:", file=sys.stderr)
+                        for tag, a in flat_pc:
+                            if tag in core:
+                                print(f"    {tag}: {str(a)[:1500]}".replace("\n", " "), file=sys.stderr)
+                    sol = z3.Solver()
+                    sol.set("unsat_core", True)
+                    for i, a in enumerate(s2.pc):
+                        sol.assert_and_track(a, f"a{i}")
+                    if sol.check() == z3.unsat:
+                        core = sorted(int(str(x)[1:]) for x in sol.unsat_core())
+                        print(f"[infeasible] {ctx.func.key()}:{line}: outcome {cname} of {fi.qualname} (pc size {len(s2.pc)}, pre-call {len(st.pc)}); core:", file=sys.stderr)
+                        for i in core:
+                            print(f"    a{i}{'*' if i >= len(st.pc) else ''}: {str(s2.pc[i])[:6000]}".replace("\n", " "), file=sys.stderr)
         # normal outcome
         if c.ensures or "$noreturn" not in c.env:
             alts = c.result.strip()[6:].split("|") if c.result.strip().startswith("union:") else [None]
